@@ -456,7 +456,7 @@ def _const_dict_keys(c: Ctx, f: Func, d: ast.AST) -> set | None:
     return None
 
 
-def _record_keys(c: Ctx, f: Func, recv: ast.AST) -> set | None:
+def _record_keys(c: Ctx, f: Func, recv: ast.AST, _depth: int = 0) -> set | None:
     """Keys common to every dict display that can be the value of `recv`: recv is a local bound from elements of a local
     list (`item = stack[j]`, `stack[j]`, `for item in stack`) all of whose elements are dict displays with constant keys and
     which is not otherwise written."""
@@ -483,7 +483,22 @@ def _record_keys(c: Ctx, f: Func, recv: ast.AST) -> set | None:
             if isinstance(n, ast.Call) and isinstance(n.func, ast.Attribute) and isinstance(n.func.value, ast.Name) and n.func.value.id == recv.id \
                     and n.func.attr in ("pop", "popitem", "clear"):
                 return None
-    if lst is None or not c.tf.scope(f).is_local(lst) or lst in {a.arg for a in f.node.args.args + f.node.args.kwonlyargs}:
+    if lst is not None and lst in {a.arg for a in f.node.args.args + f.node.args.kwonlyargs}:
+        # the list is handed in: the keys common to the lists passed at every call site
+        sites = c.cg.callers.get(f, [])
+        if _depth > 2 or not sites or any(cs.kind not in ("direct", "method") for cs in sites):
+            return None
+        acc: set | None = None
+        for cs in sites:
+            a = c.eff.arg_for_param(cs, f, lst)
+            if not isinstance(a, ast.Name):
+                return None
+            ks = _record_keys(c, cs.caller, ast.Subscript(value=a, slice=ast.Constant(value=0), ctx=ast.Load()), _depth + 1)
+            if ks is None:
+                return None
+            acc = ks if acc is None else acc & ks
+        return acc
+    if lst is None or not c.tf.scope(f).is_local(lst):
         return None
     keys: set | None = None
     n_disp = 0
@@ -516,6 +531,8 @@ def _record_keys(c: Ctx, f: Func, recv: ast.AST) -> set | None:
                 vals = [par.value]
             else:
                 return None
+        elif isinstance(n, ast.Delete) and all(isinstance(t, ast.Subscript) and isinstance(t.value, ast.Name) and t.value.id == lst for t in n.targets):
+            continue          # del stack[j:] / del stack[j]: removes whole records
         elif isinstance(n, ast.Delete):
             # deleting keys of elements: `del stack[j]['k']`
             for t in n.targets:
